@@ -25,7 +25,7 @@ Trace == ndJsonDeserialize("trace.ndjson")
 
 VARIABLES l, bad
 
-tvars == <<firstRun, users, sessions, clock, last, focus, l, bad>>
+tvars == <<firstRun, users, sessions, store, hist, clock, last, focus, l, bad>>
 
 Set(s) == {s[i] : i \in DOMAIN s}
 
@@ -56,7 +56,7 @@ ReqOK(ln) == MechOK(ln) /\ NeedOK(ln)
 LogsOut(ln) == /\ ln.clean /\ ln.matched = "/control/logout" /\ Set(ln.poss) = {Handler}
                /\ ln.cookie \in DOMAIN sessions /\ users # {}
 
-TInit == /\ firstRun = FALSE /\ users = {Admin} /\ sessions = <<>> /\ clock = 0
+TInit == /\ firstRun = FALSE /\ users = {Admin} /\ sessions = <<>> /\ store = <<>> /\ hist = <<>> /\ clock = 0
          /\ last = None /\ focus = None
          /\ l = 1 /\ bad = {}
 
@@ -65,6 +65,10 @@ Step == /\ l <= Len(Trace)
            /\ CASE ln.ev = "login"  -> sessions' = With(ln.tok, clock + 1) /\ users' = users
                 [] ln.ev = "expire" -> sessions' = With(ln.tok, clock) /\ users' = users
                 [] ln.ev = "users"  -> users' = (IF ln.has THEN {Admin} ELSE {}) /\ sessions' = sessions
+                \* Close + InitAuth over the same sessions.db: what has expired is
+                \* purged, nothing else changes (Routes!Restart).
+                [] ln.ev = "restart" -> /\ users' = users
+                                        /\ sessions' = Drop(sessions, {t \in DOMAIN sessions : sessions[t] <= clock})
                 [] OTHER -> /\ users' = users
                             /\ sessions' = IF LogsOut(ln) \/ (users # {} /\ CookieClass(ln.cookie) = "expired")
                                            THEN Without(ln.cookie) ELSE sessions
@@ -75,7 +79,8 @@ Step == /\ l <= Len(Trace)
                                             ELSE "response class not admitted for the extracted chain"]}
                      ELSE bad
         /\ l' = l + 1
-        /\ UNCHANGED <<firstRun, clock, last, focus>>
+        /\ store' = sessions'
+        /\ UNCHANGED <<firstRun, hist, clock, last, focus>>
         /\ (l' = Len(Trace) + 1 =>
               PrintT(<<"@@V", ToJson([n |-> Len(Trace), bad |-> bad'])>>))
 
